@@ -30,6 +30,7 @@ enum {
                          process); fault positions 1..NODRY_MAX */
 };
 #define NODRY_MAX 20
+#define PAIR_MAX_N 40
 /* environments */
 enum { ENV_STD, ENV_KT64, ENV_MMAP, ENV_GUARD, ENV_AFFIN, ENV_HUGE, ENV_LOG };
 
@@ -328,7 +329,12 @@ static void scenario_world(int cfg)
         if (k == N + 2)
             k = K_UNITFAIL;
     } else {
-        abtmc_check(N >= 1, "api_error", "pair config without acquisitions");
+        if (N < 1 || N > PAIR_MAX_N || nodry) {
+            /* nothing to pair / too many pairs for this variant */
+            abtmc_window_end();
+            abtmc_observe("pair n/a (N=%s)", N < 1 ? "0" : "large");
+            return;
+        }
         k = 1 + choose_big(N);
         k2 = 1 + choose_big(N);
     }
